@@ -84,13 +84,31 @@ def receiver_fields(body, term, depth=24):
 
 
 def assigns_of_return(body, variant=None):
-    """blocks that assign the return place `_0` (optionally: an aggregate of the given variant)"""
+    """blocks that assign the return place `_0` (optionally: an aggregate of the given variant); a local that is only ever moved into
+    `_0` (the result slot of a helper spliced in by the inliner) counts as the return place"""
     out = []
+    rets = {0}
+    for _ in range(4):
+        more = set()
+        for b in body.blocks:
+            if b.cleanup:
+                continue
+            for st in b.stmts:
+                if st.kind == "assign" and st.place.local in rets and not st.place.proj and st.rv.kind == "use":
+                    ops = st.rv.operands()
+                    if ops and ops[0].place is not None and not ops[0].place.proj and ops[0].kind == "move" and ops[0].place.local > body.argc:
+                        more.add(ops[0].place.local)
+        if more <= rets:
+            break
+        rets |= more
     for b in body.blocks:
         if b.cleanup:
             continue
         for st in b.stmts:
-            if st.kind == "assign" and st.place.local == 0 and not st.place.proj:
+            if st.kind == "assign" and st.place.local in rets and not st.place.proj:
+                if st.place.local == 0 and st.rv.kind == "use" and st.rv.operands() and st.rv.operands()[0].place is not None and \
+                        st.rv.operands()[0].place.local in rets and st.rv.operands()[0].place.local != 0:
+                    continue        # the hand-over itself
                 if variant is None:
                     out.append((b.idx, st))
                 elif st.rv.kind == "agg" and st.rv.j.get("variant") == variant:
